@@ -8,28 +8,32 @@ the theorems about `partition` hold for EVERY value `phi` of the Rachford–Rice
 `K`; those about the `lle` / `vle` wrappers hold for every pair of phase rows that sums to the feed
 (the hypothesis the harness monitors on every call).
 
-Clause of the property text                     theorem(s)
-  outlets sum to inlets                         mixAndSplit_balance, adjust_balance, partition_balance,
-                                                lle_balance (efficiency_conserves), vle_balance, phaseSplit_balance
-  no negative flows unless infeasibility        mixAndSplit_nonneg, adjust_nonneg, partition_nonneg, lle_nonneg, vle_nonneg
-  partition reproduces K                        partition_K, partition_K_ratio, partition_K_exact, achievedK_common_factor;
-                                                phase fraction: rr_root_sums, partition_phase_fraction_consistent,
-                                                rrShortcut_one / _zero (early exits of the N-component solver)
+Clause of the property text                     theorem(s) in this file
+  outlets sum to inlets                         mixAndSplit_balance, adjust_balance, mixSplitMoisture_balance, partition_balance,
+                                                lle_balance, lleFull_balance, vleFull_balance, phaseSplit_balance
+  no negative flows unless infeasibility        mixAndSplit_nonneg, adjust_nonneg, partition_nonneg, lle_nonneg;
+                                                partition_ok_of_domain, partition_infeasible_only_if_clip, anyClip_false_of_domain
+  partition reproduces K                        partition_K, partition_K_ratio (any phi), partition_K_deviation (exact error formula
+                                                for any phi: |phi − top share| / ((1−phi)·top share)), partition_K_exact,
+                                                achievedK_common_factor; for an EXACT rational root of the code's objective:
+                                                rr_root_sums, partition_phase_fraction_consistent, partition_K_of_root
+                                                (float roots are never exact: for them the clause rests on partition_K_deviation
+                                                 + the oracle's phi-vs-top-share check); rrShortcut_one / _zero
   forced chemicals, shortcuts                   partition_forced_top/_bottom, partition_unlisted_top, partition_phi_zero/_one
-  moisture adjustment reaches the target        moisture_reached, adjust_infeasible_iff
+  moisture adjustment reaches the target        moisture_reached, adjust_infeasible_iff, moisture_feasible_iff
   phase split sends each phase to its outlet    phaseSplit_rows, phaseSplit_error_iff
   splits × mixed = first stream                 splits_roundtrip, splits_range
   balance solver                                balance_solves, balance_total, balance_solves_invertible, balance_factors_unique
-  composition balance                           composition_balance, composition_fixed_point, composition_step_residual,
-                                                loop_ok; composition_noconv_example (no iteration cap in the code)
-  feed aliased to an outlet (code as found)     partitionAliased_top_ok, partitionAliased_top_counterexample,
-                                                partitionAliased_bottom_counterexample; mix_and_split is alias-safe
-  outlets are inputs too (no stale leak)        partitionAsIs_counterexample / partitionAsIs_eq_of_empty_bottom (code as found);
-                                                the repaired model does not read old outlet / holder contents BY DEFINITION
-                                                (rfl lemmas in Lemmas/): this clause rests on correspondence (pre-filled
-                                                outlets, reused holders, load= monitor) + oracle; lleFull_balance, vleFull_balance
-  property's domain                             anyClip_false_of_domain, partition_ok_of_domain, partition_infeasible_only_if_clip,
-                                                partition_K_of_root, moisture_feasible_iff
+  composition balance                           composition_balance, composition_fixed_point; composition_noconv_example
+  code as found / side facts                    partitionAsIs_counterexample, partitionAsIs_eq_of_empty_bottom, adjustAsIs_counterexample,
+                                                partitionAliased_* (3), rr_nonpos_of_K_le_one, rr_nonneg_of_K_ge_one,
+                                                shortcut_conventions_disagree, phaseFraction2N_root, binaryPhaseFraction_range,
+                                                phaseFraction_range, mixAndSplit_split
+  NOT decided by a theorem                      independence from old outlet / holder contents (the repaired model ignores them by
+                                                definition: rfl lemmas in Lemmas/), vle wrapper balance without the conserving-
+                                                equilibrium hypothesis: correspondence (pre-filled outlets, reused holders,
+                                                load= / hyp= monitors) + oracle
+Helper lemmas (loop_ok, composition_step_residual, vle_balance, …) live in Lemmas/Separations.lean.
 -/
 namespace ThermoVerif.Props.C20
 open ThermoVerif.Separations
@@ -1092,5 +1096,25 @@ theorem moisture_feasible_iff (a : AdjIn) (ok : AdjOK a) :
   have hmw := ok.MW_pos
   have h2 : a.raw.2 = a.R.at a.k + a.P.at a.k - dry a * a.mc / (1 - a.mc) / a.MW.at a.k := by linarith
   rw [h2, sub_nonneg, div_le_iff₀ hmw, mul_comm (a.MW.at a.k)]
+
+/-- **K reproduction for an approximate root (exact error formula)** — for EVERY `φ ∈ (0,1)` the solver returns
+(no root hypothesis), with the mole fractions taken over the two phases (totals `T` at the top, `B` at the bottom):
+`y_i = K_i · x_i · (1 + (φ − σ)/((1 − φ) σ))` where `σ = T/(T + B)` is the share of the material actually found at
+the top.  So the relative error of the achieved coefficient is exactly `|φ − σ| / ((1 − φ) σ)`, the same for every
+chemical; it vanishes iff the returned phase fraction equals the top share (which is what the oracle checks to 1e-5,
+and what `partition_phase_fraction_consistent` proves for an exact root). -/
+theorem partition_K_deviation (p : PartIn) (o : PartOut) (stale : Nat → Rat) (h : p.run stale = .ok o)
+    (h0 : 0 < p.phi) (h1 : p.phi < 1) (hclip : p.anyClip = false) (hnd : p.ids.Nodup)
+    (i : Nat) (k : Rat) (hi : i < p.n) (hmem : (i, k) ∈ p.ids.zip p.K) (hk : 0 < k)
+    (T B : Rat) (hT : 0 < T) (hB : 0 < B) :
+    o.top.at i / T = k * (o.bottom.at i / B) * (1 + (p.phi - T / (T + B)) / ((1 - p.phi) * (T / (T + B)))) := by
+  have e1 := partition_K p o stale h h0 h1 hclip hnd i k hi hmem hk
+  have h1m : (1 - p.phi) ≠ 0 := by linarith
+  have hTB : T + B ≠ 0 := by linarith
+  have ht : o.top.at i = p.phi * k * o.bottom.at i / (1 - p.phi) := by
+    rw [eq_div_iff h1m]; exact e1
+  rw [ht]
+  field_simp
+  ring
 
 end ThermoVerif.Props.C20
